@@ -256,3 +256,27 @@ where
 pub fn to_signed_norm<S: Raw>(s: S) -> f64 {
     norm(s)
 }
+
+/// Values on the edges of a format: minimum, maximum, around equilibrium, exact powers of two and
+/// their neighbours (integer formats: as signed offsets from equilibrium; floats: in [-1, 1]).
+pub fn edge_value<S: Raw>(k: u64) -> S {
+    if is_float::<S>() {
+        let eps = if S::F32 { f32::EPSILON as f64 } else { f64::EPSILON };
+        let tiny = if S::F32 { f32::MIN_POSITIVE as f64 } else { f64::MIN_POSITIVE };
+        let v = [-1.0, -1.0 + eps, -0.0, 0.0, tiny, 1.0 - eps / 2.0, 1.0, 0.5, -0.5, 0.5 + eps, 1.0 / 1_048_576.0, -0.25, 0.75, -tiny];
+        S::from_fv(v[(k % v.len() as u64) as usize])
+    } else {
+        let h = half::<S>();
+        let q = h >> 1;
+        let v = [-h, -h + 1, -1, 0, 1, h - 2, h - 1, q, -q, q + 1, q - 1, 3, -(h >> 9), (h >> 3) + 1, -q - 1, 2];
+        from_signed_raw::<S>(v[(k % v.len() as u64) as usize])
+    }
+}
+/// the largest signed-companion amplitude (clip threshold that only touches the format's minimum)
+pub fn max_value<S: Raw>() -> S {
+    if is_float::<S>() {
+        S::from_fv(1.0)
+    } else {
+        from_signed_raw::<S>(half::<S>() - 1)
+    }
+}
